@@ -80,7 +80,7 @@ def runSteps (w : World) (r : Rec) : List Step → List Sexp → List Sexp → L
   | [], accM, accS => (accM.reverse, accS.reverse)
   | st :: rest, accM, accS =>
     let w1 : World := { w with site := applyExt w.site st.ext }
-    let ls := allLines st.files
+    let ls := allLines current st.files
     let (w2, o) := runOnce current numVer w1 st.allow r ls
     let spec := specTable numVer (ls.map (·.2))
     runSteps w2 o.rec' rest (showOut w2 o :: accM)
